@@ -6,13 +6,14 @@
 (* ALL outcomes over Go's map-iteration choices.  TLC counts the inputs for   *)
 (* which the algorithm as written                                             *)
 (*    diverges (C19), ends with a duplicate qualifier (C11), is not           *)
-(*    confluent, i.e. the outcome depends on map order (C14).                 *)
-(* The first two are the recorded findings KF-02 and KF-01; confluence holds  *)
+(*    confluent, i.e. the outcome depends on map order (C14), hands out an    *)
+(*    alias that is no usable identifier (C11).                               *)
+(* These are the recorded findings KF-02, KF-01 and KF-18; confluence holds   *)
 (* for the whole universe, which is the design-level half of C14.             *)
 (* The harness reads the counts and compares them with what the real moq      *)
 (* does on the same universe (internal/gen/corpus.go builds the very same     *)
 (* paths).                                                                    *)
-EXTENDS Registry, Chars, TLC
+EXTENDS Registry, MoqNames, TLC
 
 CONSTANTS MaxPkgs
 
@@ -31,11 +32,17 @@ U == { [id |-> "y",      name |-> "y",   comps |-> << <<"y">> >>],
        [id |-> "go-x",   name |-> "foo", comps |-> << <<"g","o","-","x">> >>],
        [id |-> "y/v2",   name |-> "y",   comps |-> << <<"v","2">>, <<"y">> >>],
        [id |-> "w/y",    name |-> "foo", comps |-> << <<"y">>, <<"w">> >>],
-       [id |-> "v2",     name |-> "foo", comps |-> << <<"v","2">> >>] }
+       [id |-> "v2",     name |-> "foo", comps |-> << <<"v","2">> >>],
+       \* components that make unusable aliases once stripped and joined (KF-18)
+       [id |-> "p/go",   name |-> "y",   comps |-> << <<"g","o">>, <<"p">> >>],
+       [id |-> "2fa",    name |-> "y",   comps |-> << <<"2","f","a">> >>],
+       [id |-> "r/error", name |-> "foo", comps |-> << <<"e","r","r","o","r">>, <<"r">> >>] }
 
 Pkg(u) == [path |-> u.id, name |-> u.name, alias |-> "",
            san |-> [i \in 1..(Len(u.comps) + Len(Prefix)) |->
-                      IF i <= Len(u.comps) THEN SanComp(u.comps[i]) ELSE SanComp(Prefix[i - Len(u.comps)])]]
+                      IF i <= Len(u.comps) THEN SanComp(u.comps[i]) ELSE SanComp(Prefix[i - Len(u.comps)])],
+           sanCs |-> [i \in 1..(Len(u.comps) + Len(Prefix)) |->
+                      IF i <= Len(u.comps) THEN SanChars(u.comps[i]) ELSE SanChars(Prefix[i - Len(u.comps)])]]
 
 Seqs(n) == IF n = 1 THEN {<<Pkg(u)>> : u \in U}
            ELSE IF n = 2 THEN {<<Pkg(a), Pkg(b)>> : a, b \in U}
@@ -51,13 +58,14 @@ Next == /\ ~done /\ done' = TRUE /\ UNCHANGED input
            /\ TLCSet(2, TLCGet(2) + (IF CanDiverge(F) THEN 1 ELSE 0))
            /\ TLCSet(3, TLCGet(3) + (IF CanDuplicate(F) THEN 1 ELSE 0))
            /\ TLCSet(4, TLCGet(4) + (IF ~CanDiverge(F) /\ ~Confluent(F) THEN 1 ELSE 0))
+           /\ TLCSet(5, TLCGet(5) + (IF \E r \in Good(F) : \E q \in DOMAIN r.imp : BadAlias(r.imp[q]) THEN 1 ELSE 0))
 Spec == Init /\ [][Next]_<<input, done>>
 
-ASSUME TLCSet(1, 0) /\ TLCSet(2, 0) /\ TLCSet(3, 0) /\ TLCSet(4, 0)
+ASSUME TLCSet(1, 0) /\ TLCSet(2, 0) /\ TLCSet(3, 0) /\ TLCSet(4, 0) /\ TLCSet(5, 0)
 
 (* C14, design level: wherever the algorithm terminates, its outcome does    *)
 (* not depend on the order in which Go ranges over the imports map           *)
 ConfluentEverywhere == done => LET F == Finals(input, "") IN CanDiverge(F) \/ Confluent(F)
 
-Summary == PrintT("GENMC " \o ToString(TLCGet(1)) \o " " \o ToString(TLCGet(2)) \o " " \o ToString(TLCGet(3)) \o " " \o ToString(TLCGet(4)))
+Summary == PrintT("GENMC " \o ToString(TLCGet(1)) \o " " \o ToString(TLCGet(2)) \o " " \o ToString(TLCGet(3)) \o " " \o ToString(TLCGet(4)) \o " " \o ToString(TLCGet(5)))
 =============================================================================
